@@ -826,7 +826,6 @@ Lemma stores_agree_simple : forall toc probes, simple_toc toc -> Forall (fun p =
 Proof.
   intros toc probes Hs Hp. destruct (builds_simple toc Hs) as [M [D [Hm [Hd HR]]]].
   unfold view_mem, view_db. rewrite Hm, Hd. rewrite (r_m _ _ _ _ HR). simpl pfind.
-  rewrite (r_len_m _ _ _ _ HR), (r_len_d _ _ _ _ HR).
   split; [|discriminate]. f_equal.
   rewrite <- (assign_inos_relabel (phi (length toc)) (phi_inj (length toc))).
   rewrite (walk_same toc M D probes Hs HR Hp) by lia.
